@@ -232,6 +232,7 @@ impl Property for C11 {
                     });
                     for p in progs {
                         let prog = Arc::new(p);
+                        ctx.begin(|| case_json(cfg, &prog, &Lim::None, Via::Limit));
                         let base = match unlimited(cfg, &prog) {
                             Ok(b) => b,
                             Err(d) => {
@@ -271,6 +272,7 @@ impl Property for C11 {
                             if via != Via::Limit {
                                 ctx.hit("builder_chain");
                             }
+                            ctx.begin(|| case_json(cfg, &prog, &lim, via));
                             match run_case(cfg, &prog, &lim, via, &base) {
                                 Ok(o) => {
                                     ctx.outcome(o);
